@@ -74,6 +74,9 @@ func Parse(obj types.Object, opts *ParseOpts, localOpts LocalOpts) (*Definition,
 		// an alias of a function type has a signature but cannot be called
 		return nil, formatErr("must be a function")
 	}
+	if sig.Variadic() {
+		return nil, formatErr("must not have a variadic parameter")
+	}
 	resultsLen := sig.Results().Len()
 
 	methodDef.TypeParams = sig.TypeParams().Len() > 0
